@@ -4,6 +4,7 @@
 -/
 import Proofs.Lemmas.AoefC02Keys
 import Proofs.Lemmas.AoefC02Reach
+import Proofs.Lemmas.AoefC02Closed
 namespace SE.Proofs.C02
 open SE SE.Paths SE.Aoef
 
@@ -124,6 +125,20 @@ theorem C02_unique (c : Collection) (dir : Option PPath) (d : Doc) (hwf : WF c) 
   unfold uniqueAt
   rw [nodupB_iff, defs_eq_srcKeys hrs spec k]
   exact srcKeys_nodup hwf k
+
+example : WF ex ∧ ∃ d, save ex none = .ok d := ⟨ex_wf, _, ex_saved⟩
+
+/-! ### closed under reference -/
+
+/-- every identifier mentioned anywhere in a saved document is defined in the list of its kind
+    (no well-formedness hypothesis is needed) -/
+theorem C02_closed_any (c : Collection) (dir : Option PPath) (d : Doc) (h : save c dir = .ok d) :
+    closed d = true := by
+  obtain ⟨rs, S⟩ := saved_of_save h
+  exact S.doc_closed
+
+theorem C02_closed (c : Collection) (dir : Option PPath) (d : Doc) (_hwf : WF c) (h : save c dir = .ok d) :
+    closed d = true := C02_closed_any c dir d h
 
 example : WF ex ∧ ∃ d, save ex none = .ok d := ⟨ex_wf, _, ex_saved⟩
 
